@@ -525,8 +525,9 @@ def oracle_endtoend(chk, quick):
         general = rng.random() < 0.6
         D = rng.choice([4.2, 8.0, 1.0])
         d = D / nx
-        nl = rng.randint(1, 2)
-        lay_alt = [0.0, rng.uniform(1000, 12000)][:nl] if rng.random() < 0.6 else [rng.uniform(0, 12000) for _ in range(nl)]
+        nl = rng.randint(1, 3)
+        lay_alt = [0.0, rng.uniform(1000, 12000), rng.uniform(1000, 12000)][:nl] if rng.random() < 0.5 else \
+            [rng.uniform(500, 12000) for _ in range(nl)]
         lay_r0 = [rng.uniform(0.08, 0.4) for _ in range(nl)]
         lay_L0 = [rng.uniform(8, 60) for _ in range(nl)]
         if general:
@@ -547,6 +548,10 @@ def oracle_endtoend(chk, quick):
             alts = [rng.choice([0.0, 90e3, 20e3]) for _ in range(nw)]
             gss[0] = gss[1 + dup]
             alts[0] = alts[1 + dup]
+            if it % 7 == 3:
+                # the same star seen as a natural guide star (altitude 0 = infinity) by one sensor and as a source at 1e12 m by its
+                # duplicate: the same direction to 1e-8 relative, so the duplicate clause applies to the tolerance below
+                alts[0], alts[1 + dup] = (0.0, 1e12) if it % 2 else (1e12, 0.0)
             lam_dup = rng.choice([500e-9, 600e-9, 1.65e-6])
             lams = [lam_dup] + [rng.choice([500e-9, 800e-9]) for _ in range(m)]
             lams[1 + dup] = lam_dup
@@ -644,6 +649,41 @@ def oracle_endtoend(chk, quick):
                 if not numpy.array_equal(R2, R0):
                     chk.fail("state:conditioning-leak", "make_tomographic_reconstructor() after make_tomographic_reconstructor(%.3g) "
                              "differs from the first default call" % rcond, dict(cfg, rcond=rcond))
+        # (iii) the covariance R is optimal for is the covariance of the sensors' slopes: Σ over layers of the covariance a FRESH
+        # single-layer object builds (independent layers add).  R from the multi-layer matrix must satisfy the normal equations of it.
+        if nl >= 2 and condA <= 2e3 and not not_psd:
+            Ct = numpy.zeros_like(Cf)
+            for li in range(nl):
+                o1 = S.CovarianceMatrix(nw, allm.copy(), D, numpy.full(nw, d), alt_arr.copy(), gs_arr.copy(), numpy.array(lams), 1,
+                                        numpy.array(lay_alt[li:li + 1]), numpy.array(lay_r0[li:li + 1]), numpy.array(lay_L0[li:li + 1]), threads=1)
+                Ct += numpy.asarray(o1.make_covariance_matrix()).astype(float)
+            At, Ct_onoff = Ct[p:, p:], Ct[:p, p:]
+            res = float(numpy.abs(R0 @ At - Ct_onoff).max())
+            chk.count("oracle:endtoend:sum-of-single-layer-covariances")
+            if not within(chk, "normal-eq:endtoend:layer-sum", res, 5 * TOL32 * numpy.abs(Ct_onoff).max() * q * (1 + numpy.abs(R0).max())):
+                chk.fail("normal-eq:endtoend:layer-sum", "R does not satisfy the normal equations of the sensors' slope covariance (sum of the "
+                         "covariances fresh single-layer objects build): residual %.3g (scale %.3g); %d layers at %s m, guide-star "
+                         "altitudes %s" % (res, numpy.abs(Ct_onoff).max(), nl, [round(a) for a in lay_alt], alt_arr.tolist()), cfg)
+        # (iv) one object reused: change the asterism, rebuild, ask again with the SAME conditioning — the reconstructor must belong
+        # to the matrix the object holds now (serial builder every time; the multiprocessing builder in a few cases per run)
+        if it % 4 == 1 or it < 3:
+            thr = 2 if it < 3 else 1
+            obj2 = obj if thr == 1 else S.CovarianceMatrix(nw, allm, D, numpy.full(nw, d), alt_arr, gs_arr, numpy.array(lams), nl,
+                                                           numpy.array(lay_alt), numpy.array(lay_r0), numpy.array(lay_L0), threads=thr)
+            if thr != 1:
+                obj2.make_covariance_matrix()
+                obj2.make_tomographic_reconstructor()
+            obj2.gs_positions = numpy.asarray(gs_arr, dtype=float) + numpy.array([[rng.uniform(5, 25), rng.uniform(-25, -5)]] * nw) * \
+                numpy.arange(1, nw + 1)[:, None]
+            Cn = numpy.array(obj2.make_covariance_matrix(), copy=True)
+            Rn = numpy.asarray(obj2.make_tomographic_reconstructor()).astype(float)
+            Rw = numpy.asarray(S.create_tomographic_covariance_reconstructor(Cn, obj2.n_subaps[0], 0)).astype(float)
+            chk.count("oracle:endtoend:rebuild:threads=%d" % thr)
+            if Rn.shape != Rw.shape or not numpy.array_equal(Rn, Rw):
+                chk.fail("state:stale-after-rebuild", "after gs_positions was changed and make_covariance_matrix() re-run (threads=%d), "
+                         "make_tomographic_reconstructor() is not the reconstructor of the matrix the object holds now: max difference %.3g"
+                         % (thr, float(numpy.abs(Rn - Rw).max()) if Rn.shape == Rw.shape else float("nan")),
+                         dict(cfg, threads=thr, new_gs=numpy.asarray(obj2.gs_positions).tolist()))
         # function and method agree
         Rf = numpy.asarray(S.create_tomographic_covariance_reconstructor(C, obj.n_subaps[0], 0)).astype(float)
         if not numpy.array_equal(Rf, R0):
